@@ -146,13 +146,45 @@ def run(tier, seed):
     # start-up orchestration (load index -> snapshot -> log suffix -> load complete)
     from . import c01orch
     ob = c01orch.run(tier, seed)
+    import os
+    from .common import native_scenarios
+    native_ok = not os.environ.get("VERIF_NO_NATIVE")
+    if ob.get("verdict") == "violation":
+        ce = ob.get("counterexample") or {}
+        scen = None
+        if ce.get("catalogue_has_snapshot") and ce.get("last_applied") == 0:
+            scen = "install_then_restart"      # state arrived by snapshot installation, nothing applied since
+        elif ce.get("catalogue_has_snapshot") and 0 < ce.get("last_applied", 0) <= ce.get("snapshot_end", 0):
+            scen = "compaction_then_restart"   # restart right behind a compaction
+        if scen and native_ok:
+            rr = native_scenarios("C01", "violation", [scen], ob["message"], {"obligation": ob["harness"], "model": ce})
+            ob["replay_path"] = rr["path"]
+            ob["replay"] = {"path": rr["path"], "outcome": rr["outcome"], "message": rr["message"]}
+            if rr["outcome"] != "reproduced":
+                ob.update({"verdict": "inconclusive", "message": "engine-S counterexample (%s) did not reproduce on a real node (%s %s)" % (ob["message"], rr["outcome"], rr["message"])})
+            else:
+                ob["message"] = "%s [real node: %s]" % (ob["message"], rr["message"][:400])
+        else:
+            from lib import native
+            path = native.write_replay("C01", "c01", "model", [], {"engine": "smt", "mode": "model-only", "obligation": ob["harness"], "message": ob["message"], "model": ce})
+            ob["replay_path"] = path
+            ob["replay"] = {"path": path, "outcome": "model-only", "message": "index contents + emission sequence of the start-up chain (no node-level scenario of that shape)"}
+    elif ob.get("verdict") == "discharged" and native_ok:
+        # translator validation: the two node-level histories behind the oracle hold on a real node
+        val = native_scenarios("C01", "validate", ["compaction_then_restart", "install_then_restart"])
+        info["translator_validation_node"] = {"outcome": val["outcome"], "message": val["message"], "path": val["path"]}
+        if val["outcome"] != "passed":
+            obligations.append({"engine": "smt", "harness": "s01_node_validation", "verdict": "inconclusive", "queries": 0, "solver_s": 0,
+                                "message": "the start-up obligation is discharged but a real node does not serve the same state after a restart: %s" % val["message"]})
+    obligations.append(ob)
+    # a component's own snapshot records: the namespace registry
+    from . import c01ns
+    ob = c01ns.run(tier, seed)
     if ob.get("verdict") == "violation":
         from lib import native
         path = native.write_replay("C01", "c01", "model", [], {"engine": "smt", "mode": "model-only", "obligation": ob["harness"], "message": ob["message"], "model": ob.get("counterexample")})
         ob["replay_path"] = path
-        ob["replay"] = {"path": path, "outcome": "model-only",
-                        "message": "index contents + emission sequence of the start-up chain; a native run needs the seven state-machine actors and three store actors "
-                                   "(findings/S01b_demo.rs shows the shape of such a run)"}
+        ob["replay"] = {"path": path, "outcome": "model-only", "message": "which namespaces exist (created by a user / referenced by a config / by a service) before the snapshot is built"}
     obligations.append(ob)
     info["wall_s"] = round(time.time() - t0, 1)
     return {"obligations": obligations, "info": info}
